@@ -13,7 +13,7 @@ SPEC = {
     },
     'search_args': ['-graphs', 3000, '-children', 9],
     'assumptions': [
-        'value graphs are trees of inline Go values whose pointers/slices/maps are addresses into a heap of cells; pointers target whole cells (no interior pointers: the harness types never take the address of a field)',
+        'value graphs are trees of inline Go values whose pointers/slices/maps are addresses into a heap of cells; a cell index stands for one (address, type) reference as eq4i compares it: a pointer to the first field / element of a value is a cell of its own holding the same contents (the harness generates *Header -> Book's embedded first field and *Cell -> element 0 of a *[2]Cell)',
         'C20_sound/C20_depth assume that every cycle passes through a pointer to struct/slice/array/map (nopush_wf): cycles through maps, slices, *interface{} or `type P *P` only are outside the property; the model exhausts every budget on them and the implementation overflows the stack / spins (child-process runs)',
         'the stack budget d counts nested edges of the value graph; one edge is a constant number of Go frames (encodeValue -> fn.fe -> kXxx)',
         'model of encodeValue/ci is hand written; tied by replaying Encode/Encode/Reset/Encode on the same graphs (vm_compute) and by mutation tests',
@@ -29,5 +29,5 @@ MANIFEST = {
     'category': 'proof',
     'technique': 'Coq proofs (induction on the stack budget with a pigeonhole measure on the circular-reference stack; ancestor invariant) on an executable model of the encoder traversal + vm_compute correspondence on random value graphs + direct oracle with an independent cycle detector on real Encoders (5 formats), child processes for the runs that exhaust the stack',
     'text': 'For ALL heaps and values: with CheckCircularRef a reachable cycle through a pointer-to-container is rejected with an error within a stack budget of (cells+1)*(R+1)+1 nested edges (C20_sound, C20_depth); no acyclic graph is ever reported circular, whatever the sharing (C20_complete); an unrepresentable leaf anywhere prevents a normal return and gives an error (C20_leaves, C20_leaf_table); a successful Encode leaves the stack balanced and Reset after an error gives a fresh Encoder (C20_balanced, C20_reset); without the option cyclic graphs exhaust any budget (C20_nocheck_diverges).',
-    'note': 'Trusted: Coq kernel, the hand-written traversal model (correspondence-checked on random graphs and Encode/Encode/Reset/Encode op sequences), the harness and its reflect-based cycle detector, Go toolchain. Interior pointers (&struct.field) and embedded-pointer cycles are not generated. Cycles without any pointer-to-container edge are outside the property (stack overflow or hang, recorded in evidence as child.stack / child.hang).',
+    'note': 'Trusted: Coq kernel, the hand-written traversal model (correspondence-checked on random graphs and Encode/Encode/Reset/Encode op sequences), the harness and its reflect-based cycle detector, Go toolchain. Interior pointers to offset 0 (same address, other type) are generated and covered by the theorems (C20_typed_identity); embedded-pointer cycles are not generated. Cycles without any pointer-to-container edge are outside the property (stack overflow or hang, recorded in evidence as child.stack / child.hang).',
 }
